@@ -25,13 +25,25 @@ def _options():
 
 
 def _build_page(items):
-    from mwparserfromhell.nodes import Heading, Text, Template
+    from mwparserfromhell.nodes import Heading, Tag, Text, Template
+    from mwparserfromhell.nodes.extras import Parameter
     from mwparserfromhell.smart_list import SmartList
     from mwparserfromhell.wikicode import Wikicode
     nodes = []
     for k, (lvl, m) in enumerate(items):
         if lvl == 0:
-            nodes.append(Text("t%d " % k) if k % 2 else Template(Wikicode(SmartList([Text("x%d" % k)]))))
+            # non-heading nodes, half of them CONTAINING a heading (in a template parameter / a tag body): only the
+            # page's own (top-level) headings delimit sections
+            inner = Wikicode(SmartList([Text("\n"), Heading(Wikicode(SmartList([Text("a")])), 1 + k % 3), Text("\nz")]))
+            if k % 4 == 1:
+                nodes.append(Text("t%d " % k))
+            elif k % 4 == 0:
+                nodes.append(Template(Wikicode(SmartList([Text("x%d" % k)]))))
+            elif k % 4 == 2:
+                nodes.append(Template(Wikicode(SmartList([Text("box%d" % k)])),
+                                      [Parameter(Wikicode(SmartList([Text("1")])), inner, showkey=False)]))
+            else:
+                nodes.append(Tag(Wikicode(SmartList([Text("div")])), inner))
         else:
             nodes.append(Heading(Wikicode(SmartList([Text("a" if m else "b")])), lvl))
     return Wikicode(SmartList(nodes))
@@ -162,8 +174,10 @@ def _pages(tier, seed):
                 parts.append("\n" + "=" * l + rng.choice("ab") + "=" * l + "\n")
             elif c < 0.7:
                 parts.append("{{t|%d}}" % rng.randint(0, 9))
-            elif c < 0.85:
+            elif c < 0.8:
                 parts.append("text %d " % rng.randint(0, 9))
+            elif c < 0.9:
+                parts.append(rng.choice(["<div>\n==a==\nboxed\n</div>", "{{box|\n==b==\nin\n}}", "<ref>\n=a=\n</ref>"]))
             else:
                 parts.append("<!--c-->")
         pages.append(("text", "".join(parts)))
